@@ -1237,7 +1237,7 @@ class Query(Runner):
 class SearchAfterExtractor:
     def __init__(self):
         # extracts e.g. '[1609780186, "2"]' from '"sort": [1609780186, "2"]'
-        self.sort_pattern = re.compile(r"sort\":([^\]]*])")
+        self.sort_pattern = re.compile(r"sort\"\s*:\s*(?=\[)")
 
     def __call__(self, response: BytesIO, get_point_in_time: bool, hits_total: Optional[int]) -> (dict, list):
         # not a class member as we would want to mutate over the course of execution for efficiency
@@ -1263,12 +1263,23 @@ class SearchAfterExtractor:
         Algorithm is based on findings from benchmarks/driver/parsing_test.py. Potentially a huge time sink if changed.
         """
         response_str = response.getvalue().decode("UTF-8")
-        index_of_last_sort = response_str.rfind('"sort"')
-        last_sort_str = re.search(self.sort_pattern, response_str[index_of_last_sort::])
-        if last_sort_str is not None:
-            return json.loads(last_sort_str.group(1))
-        else:
-            return None
+        decoder = json.JSONDecoder()
+        end = len(response_str)
+        while True:
+            index_of_last_sort = response_str.rfind('"sort"', 0, end)
+            if index_of_last_sort < 0:
+                return None
+            # only accept a "sort" *key* that is followed by an array; this skips e.g. the string value "sort"
+            match = self.sort_pattern.match(response_str, index_of_last_sort + 1)
+            if match is not None:
+                try:
+                    # let the JSON decoder find the end of the array (sort values may contain brackets)
+                    last_sort, _ = decoder.raw_decode(response_str, match.end())
+                    if isinstance(last_sort, list):
+                        return last_sort
+                except json.JSONDecodeError:
+                    pass
+            end = index_of_last_sort
 
 
 class CompositeAggExtractor:
